@@ -176,7 +176,7 @@ func extractC04(c *ctxT) {
 		{"x/erc20/keeper", "Keeper", "ConvertERC20NativeToken", []c04Want{{"convertERC20NativeToken", nil}}},
 	}
 	var sb strings.Builder
-	sb.WriteString("import FxVerif.Model.C04\nnamespace FxVerif.Gen.C04\nopen FxVerif.Model.Flows (Call)\nopen FxVerif.Model.C04 (BStep BGuard BExit RStep RGuard RExit Cmp CancelRule)\n\n")
+	sb.WriteString("import FxVerif.Model.C04\nnamespace FxVerif.Gen.C04\nopen FxVerif.Model.Flows (Call)\nopen FxVerif.Model.C04 (BStep BGuard BExit RStep RGuard RExit Cmp CancelRule XStep)\n\n")
 	facts := map[string]any{}
 	for _, f := range fns {
 		fd := c.findFunc(f.pkg, f.recv, f.name)
@@ -238,6 +238,7 @@ func extractC04(c *ctxT) {
 		sb.WriteString("\n")
 	}
 	c04Batch(c, &sb)
+	c04ExecuteClaim(c, &sb)
 	sb.WriteString("end FxVerif.Gen.C04\n")
 	c.write("C04.lean", sb.String())
 	c.facts["C04.paths"] = facts
@@ -493,4 +494,48 @@ func c04Cmp(op string) string {
 		return "ne"
 	}
 	return "unknown"
+}
+
+
+// ---------------------------------------------------------------------------------------------------------------
+// ExecuteClaim: the order of "look the pending claim up", "delete it", "run its handler".  The handlers hand control
+// to arbitrary EVM code (BridgeCallHandler -> CallEVM), which can call the executeClaim precompile again: the claim
+// must be gone from the pending store BEFORE its handler runs.
+func c04ExecuteClaim(c *ctxT, sb *strings.Builder) {
+	type hit struct {
+		pos  int
+		step string
+	}
+	var steps, notes []string
+	if fd := c.findFunc("x/crosschain/keeper", "Keeper", "ExecuteClaim"); fd != nil && fd.Body != nil {
+		handler := regexp.MustCompile(`\b(SendToFxExecuted|BridgeCallHandler|BridgeCallResultHandler|executeClaim)\(`)
+		for _, st := range fd.Body.List {
+			src := c.src(st)
+			var hs []hit
+			if i := strings.Index(src, "GetPendingExecuteClaim("); i >= 0 {
+				hs = append(hs, hit{i, ".lookup"})
+			}
+			if i := strings.Index(src, "DeletePendingExecuteClaim("); i >= 0 {
+				hs = append(hs, hit{i, ".delete"})
+			}
+			if loc := handler.FindStringIndex(src); loc != nil {
+				hs = append(hs, hit{loc[0], ".handle"})
+			}
+			sort.Slice(hs, func(i, j int) bool { return hs[i].pos < hs[j].pos })
+			for _, h := range hs {
+				steps = append(steps, h.step)
+				line := src
+				if j := strings.IndexByte(line, '\n'); j >= 0 {
+					line = line[:j] + " …"
+				}
+				notes = append(notes, h.step+"  <=  "+line)
+			}
+		}
+	}
+	sb.WriteString("/-! `ExecuteClaim` — statements in source order:\n")
+	for _, n := range notes {
+		sb.WriteString("  " + strings.ReplaceAll(n, "-/", "- /") + "\n")
+	}
+	sb.WriteString("-/\ndef executeClaim_steps : List XStep := " + leanList(steps) + "\n\n")
+	c.facts["C04.executeClaim_steps"] = steps
 }
